@@ -23,7 +23,7 @@ func c15(r *Report) propMeta {
 		{Op: "BOOL", A: []string{"field:ValidatorStatus.IsActive", "call:Keeper.GetValidatorStatus"}, Want: false, Desc: "not already active"}}, GateOpts{FailIsError: true})
 	r.GateAny("activate-penalty", act, CallEff("Keeper.SetValidatorStatus"), []Cond{
 		{Op: "BOOL", A: []string{"call:Time.IsZero", "field:ValidatorStatus.Since"}, Want: true, Desc: "never deactivated (Since is zero)"},
-		{Op: "LSS", A: []string{"field:Header.Time", "call:Context.BlockHeader"}, B: []string{"call:Time.Add", "field:ValidatorStatus.Since", "field:Params.InactivePenaltyDuration"}, Want: false, Desc: "not (Since + penalty > now)"}}, 1)
+		{Op: "LSS", A: []string{"field:Header.Time", "call:Context.BlockHeader"}, B: []string{"^call:Time.Add", "binops=", "field:ValidatorStatus.Since", "field:Params.InactivePenaltyDuration"}, Want: false, Desc: "not (Since + penalty > now)"}}, 1)
 	r.ArgHas("activated-since-now", act, "types.NewValidatorStatus", 1, 1, "field:Header.Time", "call:Context.BlockHeader", "!field:ValidatorStatus.Since")
 	r.SameValue("activate-same-validator", act, ArgRef{"Keeper.GetValidatorStatus", 1}, ArgRef{"Keeper.SetValidatorStatus", 1})
 	r.Gate("miss-guards", miss, CallEff("Keeper.SetValidatorStatus"), []Cond{
@@ -37,7 +37,7 @@ func c15(r *Report) propMeta {
 	pe := oK + "ProcessExpiredRequests"
 	r.Gate("miss-only-if-expired-and-unreported", pe, CallEff("Keeper.MissReport"), []Cond{
 		{Op: "BOOL", A: []string{"call:Keeper.HasReport"}, Want: false, Desc: "not HasReport(id, v)"},
-		{Op: "LSS", A: []string{"call:Context.BlockHeight"}, B: []string{"field:Request.RequestHeight", "field:Params.ExpirationBlockCount"}, Want: false, Desc: "request expired"}}, GateOpts{})
+		{Op: "LSS", A: []string{"call:Context.BlockHeight"}, B: []string{"^binop:+", "binops=+", "field:Request.RequestHeight", "field:Params.ExpirationBlockCount"}, Want: false, Desc: "request expired"}}, GateOpts{})
 	r.ArgHas("miss-requested-validator", pe, "Keeper.MissReport", 1, 1, "field:Request.RequestedValidators", "call:Keeper.MustGetRequest")
 	r.ArgHas("miss-at-request-time", pe, "Keeper.MissReport", 2, 1, "^call:time.Unix", "field:Request.RequestTime", "call:Keeper.MustGetRequest")
 	r.SameValue("report-check-same-validator", pe, ArgRef{"Keeper.HasReport", 2}, ArgRef{"Keeper.MissReport", 1})
